@@ -2,8 +2,9 @@
 from checks.server_common import *
 
 PROP = "C05"
-CONE = ["Server/ServerModel.v", "Server/ServerProofs.v", "Props/C05.v", "Dic/RestoreProofs.v", "Kkc/Compose.v", "Props/C01.v", "Props/C03.v", "Props/C17.v"]
-THEOREMS = ["C05_init_wf", "C05_step_safe", "C05_no_panic", "C05_fuel_irrelevant", "C05_answer_depends_on_data_only"]
+CONE = ["Server/ServerModel.v", "Server/ServerProofs.v", "Props/C05.v", "Dic/RestoreProofs.v", "Kkc/Compose.v", "Props/C01.v", "Props/C03.v", "Props/C17.v",
+        "Server/Protocol.v", "Server/ConcModel.v", "Server/ConcProofs.v", "Props/C14.v", "Gen/Protocol.v"]
+THEOREMS = ["C05_init_wf", "C05_step_safe", "C05_no_panic", "C05_fuel_irrelevant", "C05_answer_depends_on_data_only", "C05_no_deadlock"]
 
 ODD_STRINGS = ["", " ", "\n", "\t", "あ い", "漢字", "ABC", "abc", "ー", "ゔ", "１２３", "😀", "a" * 300, "あ" * 120, "\u0000", "　", "き\nあ\ty\t/ア行五段/\n;", "/", ";", "'\"\\"]
 
@@ -91,7 +92,7 @@ def predicate(res, hr):
 def run(tier, seed):
     res = Result(PROP, tier, seed)
     rnd = random.Random(seed)
-    info = standard_proof_steps(res, SRV_GENS, "Props/C05.v", CONE, "Props.C05", THEOREMS)
+    info = standard_proof_steps(res, SRV_GENS + ["gen_protocol"], "Props/C05.v", CONE, "Props.C05", THEOREMS)
     okh, hlog = build_harness()
     okb, blog = build_binaries()
     if not (okh and okb):
@@ -114,6 +115,23 @@ def run(tier, seed):
     runs = run_histories(items, threads=12)
     nontrivial = sum(1 for hr in runs if predicate(res, hr))
     n_model = model_histories(res, PROP, runs)
+    # bounded time under concurrency: the extracted lock protocol is validated against the running server and
+    # concurrent clients with sleeps injected at the lock sites must all be answered (C05_no_deadlock)
+    from checks import c14
+    from checks.conc_common import POINTS
+    wd = workdir("c05c")
+    conc = 0
+    try:
+        c14.trace_conformance(res, wd)
+        plans = [({"convert.before_pref_lock": 8, "confirm.before_pref_lock": 8, "updater.before_dict_lock": 8}, 16, 8, "delays between nested lock acquisitions"),
+                 ({"convert.before_store_lock": 6, "confirm.before_store_lock": 6, "updater.before_pref_lock": 6}, 12, 8, "delays before the outer lock acquisitions")]
+        if tier != "quick":
+            plans += [({p: rnd.choice([1, 5, 20]) for p in rnd.sample(POINTS, 4)}, rnd.choice([2, 8, 32]), 20, "random delays") for _ in range(8)]
+        for dl, c, k, tag in plans:
+            conc += c14.stress(res, wd, dl, c, k, rnd, tag)["requests"]
+            shutil.rmtree(os.path.join(wd, "user"), ignore_errors=True)
+    finally:
+        cleanup(wd)
     cov = {
         "obligations": info["obligations"], "discharged": info["discharged"],
         "checker_cmd": f"cd /verif/coq && make Props/C05.vo + Print Assumptions on {len(THEOREMS)} theorems",
@@ -124,7 +142,7 @@ def run(tier, seed):
         "rule": "request histories over the six RPC methods mixing well-formed requests with empty / non-kana / very long / control-character strings, unknown ids, every RegisterWord kind with consistent and "
                 "inconsistent pairs, unparsable parameters and unknown methods; well-formed probe conversions before, in between and after; a restart on the same user directory followed by the same probes; "
                 "non-trivial = the history contains a malformed request or an odd registration",
-        "histories": len(runs), "traces_validated_against_impl": n_model,
+        "histories": len(runs), "traces_validated_against_impl": n_model, "concurrent_requests": conc,
         "samples": [runs[0].requests[:4], runs[len(corpus)].requests[:6]],
     }
     return res.finish(cov, ["partial: wall-clock bounds, jsonrpsee's handling of a panicking handler and HTTP behaviour are observed, not proved"])
